@@ -329,6 +329,51 @@ let apply (toks : string list) (buf : Buffer.t) =
              ret := "ok";
              evs := "ev " ^ String.concat " " (List.sort compare (de_events w'))
      end
+   | "mde" ->
+     (* the source world does not exist: the harness only clears the destination *)
+     let src = u 1 and dst = u 2 in
+     ensure src; ensure dst;
+     if dst <> src then !worlds.(dst) <- None
+   | "cde" ->
+     (* cde dst hr | A hex declared nrows (idx gen k v…)* | … | L length | F i:g … | R v v v v *)
+     let dst = u 1 in
+     ensure dst;
+     !worlds.(dst) <- None;
+     let sections =
+       let rec split acc cur = function
+         | [] -> List.rev (List.rev cur :: acc)
+         | "|" :: t -> split (List.rev cur :: acc) [] t
+         | x :: t -> split acc (x :: cur) t in
+       split [] [] (List.tl (List.tl (List.tl toks))) in
+     let archs = ref [] and len = ref 0 and free = ref [] and res = ref [] in
+     List.iter (fun sec ->
+         match sec with
+         | "A" :: hex :: declared :: nrows :: rest ->
+           let bytes =
+             if hex = "-" then []
+             else List.init (String.length hex / 2) (fun i -> n_of_string (string_of_int (int_of_string ("0x" ^ String.sub hex (2 * i) 2)))) in
+           let a = Array.of_list rest in
+           let pos = ref 0 in
+           let rows = List.init (int_of_string nrows) (fun _ ->
+               let idx = int_of_string a.(!pos) and gen = n_of_string a.(!pos + 1) and k = int_of_string a.(!pos + 2) in
+               (* a cell written as a token of the wrong type ("!v") cannot be read: the row is short *)
+               let vals = List.filter_map (fun j ->
+                   let t = a.(!pos + 3 + j) in
+                   if String.length t > 0 && t.[0] = '!' then None else Some (n_of_string t))
+                   (List.init k (fun j -> j)) in
+               pos := !pos + 3 + k;
+               ((nat_of_int idx, gen), vals)) in
+           archs := { sa_bytes = bytes; sa_len = nat_of_int (int_of_string declared); sa_rows = rows } :: !archs
+         | "L" :: l :: _ -> len := int_of_string l
+         | "F" :: fs -> free := List.map parse_eid fs
+         | "R" :: rs -> res := List.map n_of_string rs
+         | _ -> ()) sections;
+     (match de_content (nat_of_int !nreg) (List.rev !archs) (nat_of_int !len) !free !res with
+      | Inl _ -> ret := "err-de"; evs := "ev ?"
+      | Inr w' ->
+        !worlds.(dst) <- Some w';
+        ret := "ok";
+        evs := "ev " ^ String.concat " " (List.sort compare (de_events w')))
    | "eq" ->
      let a = u 1 and b = u 2 in
      ensure a; ensure b;
